@@ -160,7 +160,9 @@ def opHttp (impl : String) : P Verdict := do
       else if c05Obs isReq msg ≠ some o then "the C05 model (Model/Http1) builds a different observation from the message bytes"
       else showFind httpScore (httpAnalyze bundledHttpRequest bundledHttpResponse isReq o)
   let own := sigAt db li si
-  let conforms := match own with | some s => decide (ConformsHttp isReq v hs sw s) | none => false
+  -- conformance once the lines the request parser takes out (Cookie / Referer, any number) are
+  -- disregarded: `Props.C13.reach_http_request_cookies`; for responses `parsedHeaders` is the identity
+  let conforms := match own with | some s => decide (ConformsHttp isReq v (parsedHeaders isReq hs) sw s) | none => false
   let kf : List String :=
     match own with
     | none => []
